@@ -51,6 +51,14 @@ fn wrap_branching_exprs(
                 OptimizedExpr::Rep(expr)
             }
         }
+        #[cfg(feature = "grammar-extras")]
+        OptimizedExpr::RepOnce(expr) => {
+            if child_modifies_state(&expr, rules, &mut HashMap::new()) {
+                OptimizedExpr::RepOnce(Box::new(OptimizedExpr::RestoreOnErr(expr)))
+            } else {
+                OptimizedExpr::RepOnce(expr)
+            }
+        }
         _ => expr,
     }
 }
